@@ -1085,13 +1085,14 @@ class CallMixin:
             kq, j1, j2 = fresh_name("key"), fresh_name("j"), fresh_name("jj")
             rng = lambda v: f"(and (<= 0 {v}) (< {v} (seq.len {sq})))"
             s_ok.assume(f"(<= (seq.len (ditems {r.t})) (seq.len {sq}))")
+            s_ok.assume(f"(dict_wf {r.t})")       # a constructed dict: entries are pairs, keys distinct, values are values
             s_ok.assume(f"(forall (({kq} String)) (! (= (dhas {r.t} {kq}) (exists (({j1} Int)) (and {rng(j1)} {at(passes, j1)} (= {kv(j1, 0)} {kq})))) :pattern ((dhas {r.t} {kq}))))")
             # the producing index as a (Skolem) function of the key: easier for the solvers than an existential under the quantifier
             idx = self.declare_fun(fresh_name("idx"), ["String"], "Int")
             ji = f"({idx} {kq})"
             s_ok.assume(f"(forall (({kq} String)) (! (=> (dhas {r.t} {kq}) (and {rng(ji)} {at(passes, ji)} (= {kv(ji, 0)} {kq}) (= (dval {r.t} {kq}) {kv(ji, 1)}) "
                         f"(forall (({j2} Int)) (=> (and (< {ji} {j2}) (< {j2} (seq.len {sq})) {at(passes, j2)}) (not (= {kv(j2, 0)} {kq})))))) :pattern ((dval {r.t} {kq})) :pattern ((dhas {r.t} {kq}))))")
-            self.trusted_used.add("dict comprehension: key present iff produced by a passing index; value from the last such index (library semantics of dict construction)")
+            self.trusted_used.add("dict comprehension: the result is a well-formed dict; key present iff produced by a passing index; value from the last such index (library semantics of dict construction)")
             out.append((s_ok, r))
             return out
         if skolem:
